@@ -93,7 +93,12 @@ def rule_a(ctx):
          'encode picks the candidate decode produced', e.loc,
          'object candidates are matched by isinstance/other test: a base-class candidate captures '
          'subclass values and encode(decode(d)) != d')
-  ts = [k for k in g.nodes if k.kind == 'test' and A.unparse(k.ast) == 'template_keys != value_keys']
+  keyset_locals = {nm for st in ast.walk(e.node) if isinstance(st, ast.Assign) and isinstance(st.value, ast.Call)
+                   and A.call_name(st.value) == 'set' and st.value.args and 'sym_keys()' in A.unparse(st.value.args[0])
+                   for nm in A.assigned_names(st.targets[0])}
+  ts = [k for k in g.nodes if k.kind == 'test' and isinstance(k.ast, ast.Compare) and len(k.ast.ops) == 1
+        and isinstance(k.ast.ops[0], ast.NotEq) and isinstance(k.ast.left, ast.Name) and k.ast.left.id in keyset_locals
+        and isinstance(k.ast.comparators[0], ast.Name) and k.ast.comparators[0].id in keyset_locals]
   ok = bool(ts) and g.always_raises_from(ts[0], 'true')
   ctx.ob('C13.a', e.fq + '#key-sets', ok, 'Object template and input must have equal key sets', e.loc,
          'key-set comparison changed')
@@ -164,7 +169,8 @@ def rule_d(ctx):
       # only `list_spec` falsy may bypass the loop
       blocked = set()
       for k in g.nodes:
-        if k.kind == 'test' and A.unparse(k.ast) == 'list_spec':
+        if k.kind == 'test' and isinstance(k.ast, ast.Name) and isinstance(store[0].ast.value, ast.Name) \
+            and k.ast.id == store[0].ast.value.id:
           for m, lab in k.succ:
             if lab == 'false':
               blocked.add((k.id, m.id, lab))
@@ -186,17 +192,24 @@ def rule_d(ctx):
   f = idx.func(H + 'numerical.Float.custom_apply')
   g = C.cfg_of(f.node)
   problems = []
+  # the local holding the resolved spec: assigned from ...ensure_value_spec(...)
+  fs = sorted({nm for st in ast.walk(f.node) if isinstance(st, ast.Assign)
+               and any((A.call_name(c) or '').endswith('ensure_value_spec') for c in A.calls_in(st.value))
+               for nm in A.assigned_names(st.targets[0])})
+  if len(fs) != 1:
+    raise AnalysisError(f'Float.custom_apply: resolved-spec local not found ({fs})')
+  FS = fs[0]
   for bound in ('min_value', 'max_value'):
-    nt = [k for k in g.nodes if k.kind == 'test' and A.unparse(k.ast) == f'float_spec.{bound} is not None']
+    nt = [k for k in g.nodes if k.kind == 'test' and A.unparse(k.ast) == f'{FS}.{bound} is not None']
     if not nt:
-      tr = [k for k in g.nodes if k.kind == 'test' and A.unparse(k.ast) == f'float_spec.{bound}']
-      problems.append(f'`float_spec.{bound}` is tested by ' + ('truthiness: a bound of 0.0 disables the '
+      tr = [k for k in g.nodes if k.kind == 'test' and A.unparse(k.ast) == f'{FS}.{bound}']
+      problems.append(f'`{FS}.{bound}` is tested by ' + ('truthiness: a bound of 0.0 disables the '
                       'range check' if tr else 'something other than `is not None`'))
   ctx.ob('C13.d', f.fq + '#none-tests', not problems,
          'the presence of a spec bound is tested with `is not None` (0.0 is a bound)', f.loc,
          '; '.join(problems))
   rows = c03._cmp_rows(f.node)
-  want = {('self.min_value', 'Lt', 'float_spec.min_value'), ('self.max_value', 'Gt', 'float_spec.max_value')}
+  want = {('self.min_value', 'Lt', f'{FS}.min_value'), ('self.max_value', 'Gt', f'{FS}.max_value')}
   got = {(l, op, r) for op, l, r, raises, _ in rows if raises}
   ctx.ob('C13.d', f.fq + '#range', want <= got,
          'a float placeholder is bound only if its range lies inside the spec range '
